@@ -354,11 +354,11 @@ def run_lints(prog, rep, reach, tag, only_rules=None):
                                                                     for t_ in s_.targets if isinstance(t_, ast.Name)}
                         if nm_ in local:
                             continue
-                        for c in calls_in(f.node):
-                            if isinstance(c.func, ast.Attribute) and isinstance(c.func.value, ast.Name) and c.func.value.id == nm_:
-                                users.append((f, c))
-                    r3.add(f"shared|{rel}:{nm_}", not users, f"module-level object {nm_} = {ctor}(...): " + ("no method is called on it at run time" if not users else
-                           f"its method {users[0][1].func.attr}() is called at run time in {users[0][0].key}: whatever state the object keeps is carried "
+                        for n_ in walk_no_defs(f.node):
+                            if isinstance(n_, ast.Name) and n_.id == nm_ and isinstance(n_.ctx, ast.Load):
+                                users.append((f, n_))
+                    r3.add(f"shared|{rel}:{nm_}", not users, f"module-level object {nm_} = {ctor}(...): " + ("not used at run time" if not users else
+                           f"used at run time in {users[0][0].key} (line {users[0][1].lineno}): whatever state the object keeps is carried "
                            "from one run of the process to the next"), f"pdb2pqr/{rel}:{st.lineno}")
     # ---- R5: per-run construction of the shared model objects
     builders = {"get_definitions", "Forcefield", "create_handler", "Debump", "Psize", "HydrogenRoutines", "Biomolecule",
